@@ -83,6 +83,12 @@ def scenarios(ctx):
         w["errfree"] = False
         w["opts"] = {"ped": True, "tag": rng.choice(["PS", "HP"]), "genetic_haplotyping": rng.random() < 0.8,
                      "only_snvs": rng.random() < 0.15, "lists": {"recomb": rng.random() < 0.6}}
+        if rng.random() < 0.25:
+            PW.add_decoys(rng, w)
+        if rng.random() < 0.3:
+            w["stale_phase"] = rng.choice(["PS", "HP"])    # the input VCF already carries unrelated phase statements
+        if rng.random() < 0.3:
+            w["gt_desc"] = True                            # unphased heterozygous genotypes written 1/0
         scs.append({"world": w})
     # nested phase sets with a forced recombination (quartets): reported transmission vs. phased calls
     from .c20 import nested_world
